@@ -150,7 +150,12 @@ func (r *ReconWs) ReconnectAuth(ctx context.Context, url, token string) {
 		default:
 
 			if waitBeforeDial {
-				time.Sleep(boff.Duration())
+				// wait, but stop straight away if cancelled: no access request after cancellation
+				select {
+				case <-ctx.Done():
+					return
+				case <-time.After(boff.Duration()):
+				}
 			}
 
 			waitBeforeDial = true
